@@ -13,7 +13,7 @@ def main(argv):
         return 2
     prop = argv[0]
     try:
-        from verifier import core
+        from verifier import core, selftest
 
         mod = importlib.import_module(f"verifier.{prop.lower()}")
         return core.run_property(
@@ -24,7 +24,7 @@ def main(argv):
             trusted_base=getattr(mod, "TRUSTED", None),
             argv=argv[1:],
             extra_cov=getattr(mod, "extra_cov", None),
-            thorough=getattr(mod, "thorough", None),
+            thorough=getattr(mod, "thorough", selftest.thorough),
         )
     except SystemExit:
         raise
